@@ -22,7 +22,7 @@ PROP = {
     "theorems": [
         "Wm.ReqReply.replies_only_own", "Wm.ReqReply.operation_ids_distinct", "Wm.ReqReply.never_another_requests_reply",
         "Wm.ReqReply.reply_carries_result_and_error_text", "Wm.ReqReply.published_reply_carries_outcome",
-        "Wm.ReqReply.unmarshal_reply_is_own", "Wm.ReqReply.acks_every_notification",
+        "Wm.ReqReply.unmarshal_reply_is_own", "Wm.ReqReply.replies_bounded_by_own_notifications", "Wm.ReqReply.acks_every_notification",
         "Wm.ReqReply.ack_nack_table", "Wm.ReqReply.settles_exactly_once", "Wm.ReqReply.ack_after_reply_published",
         "Wm.ReqReply.reply_publish_failure_nacks", "Wm.ReqReply.early_error_publishes_nothing",
         "Wm.ReqReply.invocations_follow_table",
